@@ -529,6 +529,58 @@ func c13ParseHistory(f []string) (init []string, ops []c13HOp, ok bool) {
 	return init, ops, true
 }
 
+// c13FoldFamily: the DIRECTED family "every string that strings.EqualFold maps onto a default part or onto a stored
+// spelling": for each base part, every single-character substitution by a simple-fold partner (LONG S for s/S, KELVIN
+// SIGN for k/K, the other letter case), placed in host, namespace, model and tag position of an otherwise default name,
+// in fully written and in abbreviated (defaults merged in) form.  f gets the name string and its four intended parts.
+func c13FoldFamily(f func(name string, parts [4]string, pos int)) {
+	bases := []string{"registry.ollama.ai", "library", "latest", "mistral", "Phi-3.5k", "ks", "_sk", "K"}
+	def := [4]string{"registry.ollama.ai", "library", "m", "latest"}
+	seen := map[string]bool{}
+	for _, b := range bases {
+		var variants []string
+		for i := 0; i < len(b); i++ {
+			c := b[i]
+			var subs []string
+			switch {
+			case c == 's' || c == 'S':
+				subs = append(subs, "\u017f")
+			case c == 'k' || c == 'K':
+				subs = append(subs, "\u212a")
+			}
+			if c >= 'a' && c <= 'z' || c >= 'A' && c <= 'Z' {
+				subs = append(subs, string([]byte{c ^ 0x20}))
+			}
+			for _, sub := range subs {
+				variants = append(variants, b[:i]+sub+b[i+1:])
+			}
+		}
+		variants = append(variants, b, strings.ToUpper(b))
+		for _, v := range variants {
+			for pos := 0; pos < 4; pos++ {
+				p := def
+				p[pos] = v
+				full := p[0] + "/" + p[1] + "/" + p[2] + ":" + p[3]
+				names := []string{full}
+				switch pos { // abbreviated forms in which the other parts come from the defaults
+				case 1:
+					names = append(names, p[1]+"/"+p[2])
+				case 2:
+					names = append(names, p[2], p[2]+":"+p[3])
+				case 3:
+					names = append(names, p[2]+":"+p[3])
+				}
+				for _, nm := range names {
+					if !seen[nm] {
+						seen[nm] = true
+						f(nm, p, pos)
+					}
+				}
+			}
+		}
+	}
+}
+
 // c13Variant returns s with the case of every letter chosen at random.
 func c13Variant(r *zzverif.Rng, s string) string {
 	b := []byte(s)
@@ -664,6 +716,21 @@ func TestVerifC13(t *testing.T) {
 		out.Count("name_class_" + class)
 		c13ManifestCase(out, empty, s)
 	}
+	// directed fold family against an empty cache and against a cache that stores the plain spellings
+	stored := c13NewCache(t, root.Fork(), []string{"registry.ollama.ai/library/m:latest", "registry.ollama.ai/library/mistral:latest",
+		"registry.ollama.ai/library/Phi-3.5k:latest", "registry.ollama.ai/ks/m:latest"})
+	c13FoldFamily(func(nm string, parts [4]string, pos int) {
+		c13ManifestCase(out, empty, nm)
+		c13ExtCase(out, stored, nm)
+		c13ResolveCase(out, stored, nm)
+		// what types/model accepts and prints, the cache must accept (same name, same path)
+		if o := model.ParseName(nm); o.IsValid() {
+			if _, ok := c13ManifestCase(out, stored, o.String()); !ok {
+				out.L2("cache-rejects-model-name", "n2p "+zzverif.Hex([]byte(o.String())), "types/model accepts and prints it, DiskCache rejects it")
+			}
+		}
+		out.Count("fold_family")
+	})
 	// valid multi-byte characters inside otherwise valid names (one code point per low byte and encoded length)
 	for low := 0; low < 256; low++ {
 		for _, base := range []int{0x100, 0x4E00, 0x1F600 - 0x1F600%256} {
